@@ -184,13 +184,14 @@ func scenarioFeeder(t *traceWriter, rng *rand.Rand) {
 		realW        bool
 		badCP        int // 0 good, 1 signed by other key, 2 wrong origin
 		cancel       bool
+		wBig, lBig   uint64 // when non-zero: sizes beyond the explicit tree (stub witness only; roots are arbitrary)
 	}
 	var cases []fcase
 	for ws := -1; ws <= maxSize; ws++ {
 		for ls := 0; ls <= maxSize; ls++ {
 			for _, forked := range []bool{false, true} {
-				cases = append(cases, fcase{ws, ls, forked, "", false, 0, false})
-				cases = append(cases, fcase{ws, ls, forked, "", true, 0, false})
+				cases = append(cases, fcase{ws, ls, forked, "", false, 0, false, 0, 0})
+				cases = append(cases, fcase{ws, ls, forked, "", true, 0, false, 0, 0})
 			}
 		}
 	}
@@ -199,20 +200,24 @@ func scenarioFeeder(t *traceWriter, rng *rand.Rand) {
 			continue
 		}
 		for _, realW := range []bool{false, true} {
-			cases = append(cases, fcase{3, 8, false, p, realW, 0, false})
+			cases = append(cases, fcase{3, 8, false, p, realW, 0, false, 0, 0})
 			if len(p) <= 2 {
-				cases = append(cases, fcase{-1, 5, false, p, realW, 0, false}, fcase{6, 6, false, p, realW, 0, false})
+				cases = append(cases, fcase{-1, 5, false, p, realW, 0, false, 0, 0}, fcase{6, 6, false, p, realW, 0, false, 0, 0})
 			}
 		}
 	}
 	// the real witness's storage read fails under the adapter (a failed read is not "nothing witnessed yet")
 	for _, p := range []string{"r", "rr", "rg", "ur", "rrr"} {
-		cases = append(cases, fcase{3, 8, false, p, true, 0, false}, fcase{9, 5, false, p, true, 0, false},
-			fcase{-1, 5, false, p, true, 0, false}, fcase{6, 6, false, p, true, 0, false}, fcase{4, 7, true, p, true, 0, false})
+		cases = append(cases, fcase{3, 8, false, p, true, 0, false, 0, 0}, fcase{9, 5, false, p, true, 0, false, 0, 0},
+			fcase{-1, 5, false, p, true, 0, false, 0, 0}, fcase{6, 6, false, p, true, 0, false, 0, 0}, fcase{4, 7, true, p, true, 0, false, 0, 0})
 	}
-	cases = append(cases, fcase{3, 8, false, "", false, 1, false}, fcase{3, 8, false, "", true, 2, false},
-		fcase{3, 8, false, "ggggggggggggggggggggg", false, 0, true}, fcase{3, 8, false, "uuuuuuuuuuuuuuuuuuuuu", false, 0, true},
-		fcase{3, 8, false, "gg", false, 0, true}, fcase{3, 8, false, "pg", true, 0, true}, fcase{9, 5, false, "", true, 0, false})
+	// sizes that differ by more than 2^63: the comparison "is the witness ahead" must not be done on a signed difference
+	for _, p := range [][2]uint64{{1<<63 + 2, 1}, {1, 1<<63 + 1}, {1<<64 - 1, 5}, {5, 1<<64 - 1}, {1 << 63, 1 << 63}, {1<<63 + 9, 1<<63 + 8}, {7, 1 << 62}} {
+		cases = append(cases, fcase{wsize: 1, lsize: 1, wBig: p[0], lBig: p[1]})
+	}
+	cases = append(cases, fcase{3, 8, false, "", false, 1, false, 0, 0}, fcase{3, 8, false, "", true, 2, false, 0, 0},
+		fcase{3, 8, false, "ggggggggggggggggggggg", false, 0, true, 0, 0}, fcase{3, 8, false, "uuuuuuuuuuuuuuuuuuuuu", false, 0, true, 0, 0},
+		fcase{3, 8, false, "gg", false, 0, true, 0, 0}, fcase{3, 8, false, "pg", true, 0, true, 0, 0}, fcase{9, 5, false, "", true, 0, false, 0, 0})
 	for _, c := range cases {
 		c := c
 		wg.Add(1)
@@ -247,6 +252,14 @@ func scenarioFeeder(t *traceWriter, rng *rand.Rand) {
 				latest = res.ret
 			}
 			fetched := signNote(cpText(origin, uint64(c.lsize), br.root(uint64(c.lsize))), key.signer)
+			if c.wBig != 0 {
+				// the stub witness holds a log-signed checkpoint of a size far beyond the explicit tree (any root)
+				latest = signNote(cpText(origin, c.wBig, randHash(rand.New(rand.NewSource(int64(n))), 32)), key.signer)
+				fetched = signNote(cpText(origin, c.lBig, randHash(rand.New(rand.NewSource(int64(n)+1)), 32)), key.signer)
+				if c.wBig == c.lBig {
+					fetched = latest
+				}
+			}
 			switch c.badCP {
 			case 1:
 				fetched = signNote(cpText(origin, uint64(c.lsize), br.root(uint64(c.lsize))), other.signer)
@@ -324,8 +337,12 @@ func scenarioFeeder(t *traceWriter, rng *rand.Rand) {
 			if c.realW {
 				postState = s.readState(l.id)
 			}
-			t.line("FD %s origin=%s vname=%s vhash=%d vid=%s cp=%s witness=%s wsize=%d lsize=%d forked=%v pattern=%s cancel=%v hang=%d late=%d pre=%s post=%s answers=%s => calls=%s result=%s",
-				s.id, hx([]byte(origin)), hx([]byte(key.verif.Name())), key.verif.KeyHash(), l.rv.vid, hx(fetched), kind, c.wsize, c.lsize, c.forked,
+			wShow, lShow := fmt.Sprint(c.wsize), fmt.Sprint(c.lsize)
+			if c.wBig != 0 {
+				wShow, lShow = fmt.Sprint(c.wBig), fmt.Sprint(c.lBig)
+			}
+			t.line("FD %s origin=%s vname=%s vhash=%d vid=%s cp=%s witness=%s wsize=%s lsize=%s forked=%v pattern=%s cancel=%v hang=%d late=%d pre=%s post=%s answers=%s => calls=%s result=%s",
+				s.id, hx([]byte(origin)), hx([]byte(key.verif.Name())), key.verif.KeyHash(), l.rv.vid, hx(fetched), kind, wShow, lShow, c.forked,
 				"."+c.pattern, c.cancel, hang, sw.lateCalls, preState, postState, strings.Join(sw.answers, ";"), strings.Join(sw.calls, ";"), result)
 			sw.mu.Unlock()
 			mu.Lock()
